@@ -321,14 +321,25 @@ def compare_builds(realA, A, realB, B, ren, cmap, script, k=5):
 
 
 def optimum(assertions, target, is_min):
-    o = z3.Optimize()
-    o.set("timeout", 10000)
-    o.add(assertions)
-    h = o.minimize(target) if is_min else o.maximize(target)
-    if o.check() != z3.sat:
-        return None
-    v = h.value()
-    return v.as_long() if z3.is_int_value(v) else None
+    """the optimal value of `target` over the assertions, by successive tightening with a plain z3.Solver (z3.Optimize is
+    not used: on array / quantified assertions it now and then returns a non-optimal model, finding F42); None when z3
+    gives up or the objective is unbounded within 400 steps"""
+    s = z3.Solver()
+    s.set("timeout", 10000)
+    s.add(assertions)
+    best = None
+    for _ in range(400):
+        r = s.check()
+        if r == z3.unsat:
+            return best
+        if r != z3.sat:
+            return None
+        v = s.model().eval(target, model_completion=True)
+        if not z3.is_int_value(v):
+            return None
+        best = v.as_long()
+        s.add(target < best if is_min else target > best)
+    return None
 
 
 def parking_leak_region(script):
